@@ -254,7 +254,7 @@ def evaluate(ctx, cases):
                         if kind == "UNION":
                             acc = acc + right
                         else:
-                            acc = [x for x in acc if any(x == y for y in right)]
+                            acc = [x for x in acc if any(core.json_equal(x, y) for y in right)]     # by JSON value: 1 is not true
                 except Exception:  # noqa: BLE001
                     acc = None
                     ctx.count("compound-operands-not-separable")
